@@ -1,4 +1,5 @@
 import NbioVerif.Properties.C03
+import NbioVerif.Lemmas.SrcBridgeConn
 #print axioms Life.li_run
 #print axioms Life.c03_close_once
 #print axioms Life.c03_close_after_open
@@ -7,3 +8,4 @@ import NbioVerif.Properties.C03
 #print axioms Life.c03_closed_ops_run
 #print axioms Life.c03_close_idempotent
 #print axioms Life.c03_dial
+#print axioms ConnFull.src_masks_wellformed
